@@ -360,3 +360,40 @@ Definition parse_latex (s : str) : res rt :=
 
 (* Text.from_latex(latex) (richtext.py:810-816) = LaTeXParser(codecs.decode(latex, 'ulatex')).parse() *)
 Definition from_latex (dec : str -> str) (latex : str) : res rt := parse_latex (dec latex).
+
+(* ------------------------------------------------------------------------------------ *)
+(* one back-end OBJECT used several times.  The attributes an object keeps between calls:
+   self.output and self.formatted_bibliography, both assigned by write_to_stream
+   (backends/__init__.py:105-106) before anything reads them; encoding / latex_encoding /
+   php_extra are set once by __init__.  write_to_file (:98-102) is write_to_stream on a file. *)
+Record bstate := mkBState { st_preamble : str; st_entries : list fentry }.
+
+Inductive bop :=
+| OpDoc (preamble : str) (es : list fentry)     (* write_to_stream / write_to_file *)
+| OpRender (t : rt)                             (* text.render(backend) *)
+| OpStr (s : str)                               (* backend.format_str(s) *)
+| OpEntry (key label text : str).               (* backend.write_entry(key, label, text) into a given sink *)
+
+Section History.
+Variable enc : str -> str.
+Variable T : tables.
+Variable b : backend.
+Variable php_extra : bool.
+Variable encoding : str.
+
+Definition step (st : bstate) (op : bop) : bstate * res str :=
+  match op with
+  | OpDoc pre es =>
+    let st' := mkBState pre es in      (* self.formatted_bibliography = formatted_bibliography *)
+    (st', write_to_stream enc T b php_extra encoding (st_preamble st') (st_entries st'))
+  | OpRender t => (st, render enc T b t)
+  | OpStr s => (st, Ok (format_str enc T b s))
+  | OpEntry k l x => (st, Ok (write_entry b php_extra k l x))
+  end.
+
+Fixpoint run_history (st : bstate) (ops : list bop) : list (res str) :=
+  match ops with
+  | [] => []
+  | op :: r => let '(st', x) := step st op in x :: run_history st' r
+  end.
+End History.
